@@ -142,7 +142,9 @@ def check_access(case, stats):
                 plan.append((op, rv, ref, ra, value))
         except StopIteration:
             break
-    ast = {"data": data, "text": lines, "data_first": case["data_first"], "text_directive": True}
+    # code first needs no .text directive ("whether .data comes before or after .text does not matter" includes the
+    # layout: instructions, then .data): half of those cases are rendered without it
+    ast = {"data": data, "text": lines, "data_first": case["data_first"], "text_directive": bool(case["data_first"] or sum(case["tape"]) % 2 == 0)}
     text, _ = asm.render(ast, case["tape"])
     sim = _sim(text, case)
     base = sim.state.memory.get_address_range().start
